@@ -15,7 +15,9 @@
        every value that fits the storage types of the generated fields (`walk_ser_refines_composite`); the statement
        `walk_ser_refines_statement` below, whose storage proviso is the placeholder True and whose type is arbitrary, is
        REFUTED there (`walk_ser_refines_statement_refuted`) - it is kept here only as the record of what was open;
-     - Codec/GenC01Thm.v: the translator tie (Generated/Gen_C01.v). *)
+     - Codec/GenC01Thm.v: the translator tie (Generated/Gen_C01.v);
+     - third round: Codec/PrimsOn.v (the laws restricted to what the walker asks), WalkerBound.v (cursor bound), Instances*.v
+       (the laws proved of the C / C++ / Python primitive models of C14 and the refinement theorems instantiated with them). *)
 From Verif Require Import Wire WireThm Walker.
 From Coq Require Import Lia ZifyBool ZifyNat ZifyN.
 Local Open Scope nat_scope.
